@@ -392,3 +392,18 @@ func DeepCopy[T any](v T) T { return deep.MustCopy(v) }
 // LogicalClock switches the symbolic clock to a logical one: successive readings are concrete and strictly
 // increasing. Used where timestamps matter only through their order. Natively a no-op (the real clock runs).
 func LogicalClock() {}
+
+// ClockReading returns the k-th reading (0-based) the code under test has taken of the clock so far.
+// Natively the real clock cannot be observed from outside: the instant the replay started stands in for it.
+func ClockReading(k int) time.Time {
+	mu.Lock()
+	defer mu.Unlock()
+	if !baseSet {
+		base = time.Now()
+		baseSet = true
+	}
+	return base
+}
+
+// ClockReadings is the number of clock readings taken so far (0 natively).
+func ClockReadings() int { return 0 }
